@@ -2077,6 +2077,12 @@ class KmipEngine(object):
                 "request.".format(len(existing_objects))
             )
 
+        if len(existing_objects) == 0:
+            raise exceptions.InvalidField(
+                "At least one unique identifier must be specified for key "
+                "derivation."
+            )
+
         # Select the derivation object to use as the keying material
         keying_object = existing_objects[0]
         self._logger.info(
@@ -2085,6 +2091,15 @@ class KmipEngine(object):
         )
 
         derivation_parameters = payload.derivation_parameters
+        if derivation_parameters is None:
+            raise exceptions.InvalidField(
+                "The derivation parameters must be specified."
+            )
+        if derivation_parameters.cryptographic_parameters is None:
+            raise exceptions.InvalidField(
+                "The cryptographic parameters must be specified in the "
+                "derivation parameters."
+            )
 
         derivation_data = None
         if derivation_parameters.derivation_data is None:
